@@ -279,11 +279,20 @@ func TestC16ReuseStateMachine(t *testing.T) {
 			}
 			k = preps[rapid.IntRange(0, len(preps)-1).Draw(rt, "prep-kind")]
 		}
+		// One history in twenty-five is over a String column that now and then gets a value of a
+		// mebibyte and more (size thresholds in the encode and vectored-write paths).
+		hugeRun := rapid.IntRange(0, 24).Draw(rt, "huge-values") == 0
+		if hugeRun {
+			k = gen.ByName["String|X|String"]
+		}
 		m := &c16machine{rt: rt, k: k, col: k.New()}
 		steps := 0
 		rt.Repeat(map[string]func(*rapid.T){
 			"append": func(rt *rapid.T) {
 				v := k.Value.Draw(rt, "v")
+				if hugeRun && rapid.IntRange(0, 3).Draw(rt, "huge-now") == 0 {
+					v = gen.Expand(rapid.Uint64().Draw(rt, "huge-seed"), rapid.SampledFrom([]int{1<<20 - 1, 1 << 20, 1<<20 + 1, 1<<20 + 70_000}).Draw(rt, "huge-bytes"))
+				}
 				m.col.Append(v)
 				m.model = append(m.model, v)
 				m.newSince = true
